@@ -385,6 +385,9 @@ func run(c Case) kit.Outcome {
 		out.Classes = append(out.Classes, "payload>64KiB")
 	}
 	out.Classes = append(out.Classes, "link="+c.M.Link, "enc="+c.M.Enc)
+	if c.M.Poll {
+		out.Classes = append(out.Classes, "poll")
+	}
 	if c.M.SrvPipelining {
 		out.Classes = append(out.Classes, "srv-pipelining")
 	}
